@@ -1,5 +1,5 @@
 #!/bin/bash
 # regenerate coq/_CoqProject from the files present (Extract.v is compiled separately)
 cd "$(dirname "$0")/../coq"
-{ echo "-Q . Physt"; ls Base/*.v Model/*.v Proofs/*.v 2>/dev/null; echo Dispatch.v; ls Props/*.v 2>/dev/null; } > _CoqProject
+{ echo "-Q . Physt"; ls Base/*.v Gen/*.v Model/*.v Proofs/*.v Tie/*.v 2>/dev/null; echo Dispatch.v; ls Props/*.v 2>/dev/null; } > _CoqProject
 coq_makefile -f _CoqProject -o Makefile >/dev/null
